@@ -28,7 +28,7 @@ class Mod:
 
 class BindGen:
     def __init__(self, rng: random.Random, class_imports: bool = True, star: bool = True,
-                 relative: bool = True, reimport: bool = True, reexports: bool = True) -> None:
+                 relative: bool = True, reimport: bool = True, reexports: bool = True, subclasses: bool = True) -> None:
         self.rng = rng
         self.n = 0
         self.mods: List[Mod] = []
@@ -38,6 +38,7 @@ class BindGen:
         self.relative = relative
         self.reimport = reimport
         self.reexports = reexports
+        self.subclasses = subclasses
 
     def fresh(self, prefix: str) -> str:
         self.n += 1
@@ -80,9 +81,13 @@ class BindGen:
         rng.shuffle(order)
         mods = {lay[i][0]: Mod(*lay[i]) for i in range(len(lay))}
         done: List[Mod] = []
+        # subclasses (inherited attributes) in about a third of the projects
+        self.subclasses = self.subclasses and rng.random() < 0.2
+        self.rank: Dict[str, int] = {}              # topological index: imports only reach smaller ranks
         for i in order:
             m = mods[lay[i][0]]
             self.fill(m, done, mods)
+            self.rank[m.q] = len(done)
             done.append(m)
         self.mods = [mods[q] for q, _, _ in lay]
         return [Unit(m.q, m.is_pkg, "\n".join(m.lines) + "\n", m.parent) for m in self.mods]
@@ -177,7 +182,9 @@ class BindGen:
                   done: List[Mod], mods: Dict[str, Mod]) -> str:
         rng = self.rng
         name = self.fresh("C")
-        out.append(indent + "class %s:" % name)
+        # sometimes a subclass of an earlier top-level class of the same module (inherited attributes: `Sub.x`)
+        base = rng.choice(m.classes) if (self.subclasses and depth == 0 and m.classes and rng.random() < 0.25) else None
+        out.append(indent + "class %s%s:" % (name, "(%s)" % base if base else ""))
         ind = indent + "    "
         out.append(ind + "'''ID:%s'''" % name)
         cscope = scope + "." + name
@@ -250,3 +257,99 @@ class BindGen:
                     m.has_all = sorted(set(m.has_all) | set(chosen))
             if m.has_all is not None:
                 out.append("__all__ = %r" % m.has_all)
+
+
+# ---------------------------------------------------------------------------------------------
+# source text -> abstract project (the syntax of lean/PdModel/Imports.lean).  This translator is part of
+# the trusted base of the C04 `imports build` / `pyimp run` streams: it decides which abstract project a
+# source tree *is*.  It reads syntax only (Python's own `ast`), never control flow of pydoctor.
+
+class Unsupported(Exception):
+    """the source uses a construct the abstract syntax does not have"""
+
+
+def _enc(s: str) -> str:
+    return "u:" + ".".join(str(ord(c)) for c in s)
+
+
+def _dotted(node) -> str:
+    import ast
+    parts = []
+    while isinstance(node, ast.Attribute):
+        parts.append(node.attr)
+        node = node.value
+    if not isinstance(node, ast.Name):
+        raise Unsupported("base expression")
+    parts.append(node.id)
+    return ".".join(reversed(parts))
+
+
+def _stmts(body, toplevel: bool, out: List[str], forms: Dict[str, int], defs: Dict[str, str], values: Dict[int, str],
+           scope: str) -> None:
+    import ast
+    for i, node in enumerate(body):
+        if isinstance(node, ast.Expr) and isinstance(node.value, ast.Constant) and isinstance(node.value.value, str):
+            continue                                  # docstring / attribute docstring: binds nothing
+        if isinstance(node, ast.Pass):
+            continue
+        if isinstance(node, ast.Import):
+            for al in node.names:
+                out.append("I|%s|%s" % (_enc(al.name), _enc(al.asname) if al.asname else "-"))
+                forms["import_as" if al.asname else "import"] = forms.get("import_as" if al.asname else "import", 0) + 1
+        elif isinstance(node, ast.ImportFrom):
+            mod = _enc(node.module) if node.module else "-"
+            for al in node.names:
+                if al.name == "*":
+                    out.append("S|%d|%s" % (node.level, mod))
+                    k = "star" + ("_relative" if node.level else "")
+                else:
+                    out.append("F|%d|%s|%s|%s" % (node.level, mod, _enc(al.name), _enc(al.asname) if al.asname else "-"))
+                    k = "from" + ("_as" if al.asname else "") + ("_relative%d" % node.level if node.level else "")
+                if not toplevel:
+                    k += "_in_class"
+                forms[k] = forms.get(k, 0) + 1
+        elif isinstance(node, ast.ClassDef):
+            if node.decorator_list or node.keywords:
+                raise Unsupported("class decorators / keywords")
+            bases = [_dotted(b) for b in node.bases]
+            out.append("C|%s|%s" % (_enc(node.name), ",".join(_enc(b) for b in bases) or "-"))
+            forms["class" + ("_with_bases" if bases else "")] = forms.get("class" + ("_with_bases" if bases else ""), 0) + 1
+            defs[node.name] = scope + "." + node.name
+            _stmts(node.body, False, out, forms, defs, values, scope + "." + node.name)
+            out.append("}")
+        elif isinstance(node, (ast.FunctionDef, ast.AsyncFunctionDef)):
+            if node.decorator_list:
+                raise Unsupported("decorated function")
+            out.append("D|%s" % _enc(node.name))
+            defs[node.name] = scope + "." + node.name
+        elif isinstance(node, ast.Assign) and len(node.targets) == 1 and isinstance(node.targets[0], ast.Name):
+            name = node.targets[0].id
+            v = node.value
+            if name == "__all__":
+                if not toplevel or not isinstance(v, (ast.List, ast.Tuple)) or \
+                        not all(isinstance(e, ast.Constant) and isinstance(e.value, str) for e in v.elts):
+                    raise Unsupported("__all__ form")
+                out.append("L|%s" % (",".join(_enc(e.value) for e in v.elts) or "-"))
+                forms["__all__"] = forms.get("__all__", 0) + 1
+            elif isinstance(v, ast.Constant) and isinstance(v.value, int) and not isinstance(v.value, bool) and v.value >= 0:
+                out.append("A|%s|%d" % (_enc(name), v.value))
+                values[v.value] = scope + "." + name
+            else:
+                raise Unsupported("assignment value")
+        else:
+            raise Unsupported(type(node).__name__)
+
+
+def abstract_project(units: List[Unit]):
+    """(tokens, info) for the Lean `imports` / `pyimp` models, or raise Unsupported.
+    info: {"forms": import-form histogram, "defs": definition name -> qualified site (only meaningful when
+    names are unique), "values": int constant -> qualified site, "mods": [qualified names]}"""
+    import ast
+    toks: List[str] = []
+    forms: Dict[str, int] = {}
+    defs: Dict[str, str] = {}
+    values: Dict[int, str] = {}
+    for u in units:
+        toks.append("M|%s|%s" % (_enc(u.qname), "P" if u.is_package else "M"))
+        _stmts(ast.parse(u.source).body, True, toks, forms, defs, values, u.qname)
+    return toks, {"forms": forms, "defs": defs, "values": values, "mods": [u.qname for u in units]}
